@@ -358,26 +358,42 @@ def history_conformance(t, m, report):
     if not c01.md_in_domain(t):
         report.count('history:skipped-metadata-outside-domain')
         return
-    src = c01.observe_source(t)
-    fh = h5py.File('c04-hist-%d-%d.h5' % (os.getpid(), id(t)), 'w', driver='core', backing_store=False)
-    try:
+    def one_write(tag):
+        src = c01.observe_source(t)
+        fh = h5py.File('c04-hist-%d-%d.h5' % (os.getpid(), id(t)), 'w', driver='core', backing_store=False)
         try:
-            t.to_hdf5(fh, 'verif', creation_date=c01.DATE)
-        except Exception as e:
-            report('history:writer-raised:' + type(e).__name__, 'to_hdf5 raised %s: %s' % (type(e).__name__, e))
-            return
+            try:
+                t.to_hdf5(fh, 'verif', creation_date=c01.DATE)
+            except Exception as e:
+                report('history:writer-raised:' + type(e).__name__, '%sto_hdf5 raised %s: %s' % (tag, type(e).__name__, e))
+                return False
+            try:
+                dec = h5spec.decode(fh)
+            except Exception as e:
+                report('history:undecodable:' + type(e).__name__, '%sthe raw-h5py decoder cannot walk the file: %s' % (tag, e))
+                return False
+        finally:
+            fh.close()
+        probs = list(dec['problems']) + list(h5spec.compare(dec, src))
+        for clause, detail in probs[:3]:
+            report('history:' + clause, tag + detail)
+        return not probs
+
+    if not one_write(''):
+        return
+    report.count('clause:history-conformance')
+    # the same object is written again after its values changed in place (a writer must not remember anything
+    # about the matrix it wrote before)
+    if 0 in t.shape:
+        return
+    for ax in ('sample', 'observation'):
         try:
-            dec = h5spec.decode(fh)
-        except Exception as e:
-            report('history:undecodable:' + type(e).__name__, 'the raw-h5py decoder cannot walk the file: %s' % e)
+            t.transform(lambda v, i, md: v * 2 + 1, axis=ax, inplace=True)
+        except Exception:
+            return          # C13's business
+        if not one_write('second write of the same object after an in-place transform along %s: ' % ax):
             return
-    finally:
-        fh.close()
-    probs = list(dec['problems']) + list(h5spec.compare(dec, src))
-    for clause, detail in probs[:3]:
-        report('history:' + clause, detail)
-    if not probs:
-        report.count('clause:history-conformance')
+    report.count('clause:history-rewrite')
 
 
 def history_spec(depth):
@@ -404,7 +420,7 @@ def run(run):
         'ids-vs-source:non-ascii', 'metadata-length', 'metadata-values', 'group-metadata',
         'csr-wellformed', 'csc-wellformed', 'csr-vs-csc', 'matrix-vs-source',
         'matrix-vs-source:non-zero')]
-    need += ['class:empty-axis', 'class:all-zero', 'clause:history-conformance']
+    need += ['class:empty-axis', 'class:all-zero', 'clause:history-conformance', 'clause:history-rewrite']
     need += ['writer:' + x for x in WRITERS] + ['compress:on', 'compress:off']
     need += ['prod:' + p for p in ('A', 'B-ids', 'B-md', 'B-x', 'B-hdr', 'B-type', 'E')]
     need += ['route:' + r for r in E_ROUTES]
